@@ -45,6 +45,9 @@ CHECKS = {
  "C15": ("bounded-exhaustive enumeration of schemas (C13 accepting side, both load routes) and of string contents (every string of <= 2, thorough 3, units over a 13-unit escaping alphabet at each of 20 description / string-constant sites) on the real printer and parser; read-back differential oracle (printed SDL accepted, same canonical schema, fixed point); thorough adds ggqlgen -w on the bases",
          "Every schema/string in the bound is loaded, printed, re-loaded in a fresh root, read back through the public API and compared canonically; the second print must equal the first.",
          "Descriptions compared as the parser normalises them; null defaults not generated; per-type SDL() not separately re-parsed; ggqlgen -e not yet exercised.", "5.15"),
+ "C16": ("exhaustive enumeration of arrangements of bounded definition sets on the real loader: all permutations in one document, all assignments to <= 3 successive loads with reference-closed prefixes, every single/pair move of a member into an extend block placed before or after its target; all-agree differential oracle (accept, canonical read-back with directive defaults filled, root types, introspection data)",
+         "For each definition set every arrangement in the three families is loaded into a fresh root and must agree with the canonical arrangement.",
+         "Definition sets of 5-6 units (thorough adds the C13 bases); partitions with unresolvable prefixes are outside the claim; ggqlgen multi-file ordering not yet exercised.", "5.16"),
 }
 
 NOT_YET = {}
